@@ -29,6 +29,10 @@ type c10Case struct {
 	CrashAt int    `json:"crash_before_op"`
 	Torn    bool   `json:"torn_write,omitempty"`
 	Crash2  int    `json:"second_kill_before_cleanup_op,omitempty"` // the restarted daemon is killed again inside its start-up clean-up
+	// second generation: after the clean-up the restarted daemon records History2 into the same
+	// directory and is killed before its Crash3-th operation (0 = runs to the end), then cleans up again
+	History2 string `json:"history_after_restart,omitempty"`
+	Crash3   int    `json:"kill_after_restart_before_op,omitempty"`
 }
 
 type c10Env struct {
@@ -291,8 +295,38 @@ func runC10(c c10Case) (vs []ev.Violation, nops int) {
 	}
 	add(e.checkI1(when + " and clean-up"))
 	add(e.checkI2(when + " and clean-up"))
+	if c.History2 != "" {
+		// the restarted daemon records again into the directory the first generation left behind
+		vos.Reset()
+		if c.Crash3 > 0 {
+			vos.ArmCrash(c.Crash3)
+		}
+		func() {
+			defer func() {
+				if p := recover(); p != nil {
+					if _, ok := p.(vos.Crash); !ok {
+						panic(p)
+					}
+				}
+			}()
+			e.runHistory(c.History2)
+		}()
+		gen2Ops = len(vos.Ops())
+		vos.ArmCrash(0)
+		vos.CloseAll()
+		when2 := fmt.Sprintf("%s, clean-up, restart, history %s killed before op %d", when, c.History2, c.Crash3)
+		add(e.checkI1(when2))
+		vos.Reset()
+		if err := deleteTempFiles(e.conf.OutputDir); err != nil {
+			add("C10:cleanup-error", err.Error())
+		}
+		add(e.checkI1(when2 + " and the second clean-up"))
+		add(e.checkI2(when2 + " and the second clean-up"))
+	}
 	return vs, nops
 }
+
+var gen2Ops int // operations of the last second-generation history
 
 func c10Replay(cj []byte) []ev.Violation {
 	var c c10Case
@@ -315,7 +349,7 @@ func TestVerifC10(t *testing.T) {
 	if r.Thorough() {
 		sizes = []string{"8x6", "160x120"}
 	}
-	r.Rule = "real CPTVFileRecorder + real go-cptv writer on a real temp directory, file-system calls numbered by the os->vos import rewrite: histories H1 (start, 3 frames, stop), H2 (two recordings), H3 (start, frames, Stop() on connection loss), H4/H4c (a start that fails while the header is written, followed by StopRecording and a normal recording; motion and continuous recorder), H5 (motion + test recording interleaved in one directory), H7 (120 frames: several buffer flushes mid-recording), H6 (motion + continuous recorder in constant-recordings/); one uncrashed run per history with a concurrent-observer check (every *.cptv decodes header-to-EOF and equals what was recorded) at EVERY operation boundary, then one run per crash point k=1..N (kill before operation k) and per torn write (first half of write k reaches the file), each followed by the real deleteTempFiles and the check that only complete recordings remain; plus, for every crash point, a second kill at every operation of that clean-up followed by a further start-up. Non-trivial = crashed run."
+	r.Rule = "real CPTVFileRecorder + real go-cptv writer on a real temp directory, file-system calls numbered by the os->vos import rewrite: histories H1 (start, 3 frames, stop), H2 (two recordings), H3 (start, frames, Stop() on connection loss), H4/H4c (a start that fails while the header is written, followed by StopRecording and a normal recording; motion and continuous recorder), H5 (motion + test recording interleaved in one directory), H7 (120 frames: several buffer flushes mid-recording), H6 (motion + continuous recorder in constant-recordings/); one uncrashed run per history with a concurrent-observer check (every *.cptv decodes header-to-EOF and equals what was recorded) at EVERY operation boundary, then one run per crash point k=1..N (kill before operation k) and per torn write (first half of write k reaches the file), each followed by the real deleteTempFiles and the check that only complete recordings remain; plus, for every crash point, a second kill at every operation of that clean-up followed by a further start-up; plus second generations: after every crash point and its clean-up the restarted daemon records a further history (quick: H6; thorough: H1, H3, H5, H6) into the same directory and is killed before every one of its operations, followed by another clean-up. Non-trivial = crashed run."
 	r.Assumptions = []string{"process-kill semantics: completed operations persist, user-space buffers are lost (power-loss durability is not claimed by C10)", "recording names come from a harness-owned clock advancing 1 ms per start"}
 	w := r.Serial()
 	points := map[string]int{}
@@ -367,6 +401,40 @@ func TestVerifC10(t *testing.T) {
 			}
 		}
 	}
+	// second generation: every crash point of every history, clean-up, then the restarted daemon records again
+	// in the same directory and is killed at every point of that history too (states reached from a
+	// non-initial directory: survivors of the first generation, names already taken)
+	hist2 := []string{"H6"}
+	if r.Thorough() {
+		hist2 = []string{"H1", "H3", "H6", "H5"}
+	}
+	gen2 := 0
+	for _, h := range hist {
+		for k := 1; k <= points[h+"/8x6"]; k++ {
+			for _, h2 := range hist2 {
+				n2 := 0
+				for k3 := 0; k3 == 0 || k3 <= n2; k3++ {
+					c := c10Case{History: h, Size: "8x6", CrashAt: k, History2: h2, Crash3: k3}
+					vs, _ := runC10(c)
+					if k3 == 0 {
+						n2 = gen2Ops
+					}
+					gen2++
+					w.Evaluations++
+					w.Nontrivial++
+					w.States++
+					w.Transitions += int64(k + k3)
+					sigs := ""
+					for _, v := range vs {
+						sigs += v.Sig
+						w.Violate(v.Sig, v.Msg, v.Case, k+k3)
+					}
+					w.Outcome(ev.Hash(h, h2, sigs, len(vs)))
+				}
+			}
+		}
+	}
+	r.Bounds["second_generation_cases"] = gen2
 	r.Bounds["crash_points_per_history"] = points
 	r.Bounds["double_kill_cases"] = doubleKills
 	finish(t, r)
